@@ -598,8 +598,10 @@ func (device *AbacoUDPReceiver) start() (err error) {
 				} else if err == io.EOF {
 					return
 				} else {
+					// Drop a datagram that is not a packet. (Ending this goroutine here left nobody to
+					// answer sendmore: the reader loop blocked for ever in ReadAllPackets, deaf to abortSelf.)
 					fmt.Printf("Error converting UDP to packet: err %v, packet %v\n", err, pack)
-					return
+					continue
 				}
 			}
 		}
